@@ -425,6 +425,11 @@ class C19(Spec):
     def run_python(self, tier, seed, jobs, deadline, replay_obj):
         import progmatrix
         groups = [(g, GROUPS[g]) for g in ALL_GROUPS]
+        if tier == 'thorough':
+            groups += [('R2', 'manif::Rn<{S},2>'), ('R5', 'manif::Rn<{S},5>'),
+                       ('Bundle_SO2_SE3', 'manif::Bundle<{S},manif::SO2,manif::SE3>'),
+                       ('Bundle_SE_2_3_R3_SO3', 'manif::Bundle<{S},manif::SE_2_3,manif::R3,manif::SO3>'),
+                       ('Bundle_SGal3', 'manif::Bundle<{S},manif::SGal3>')]
         return progmatrix.run_matrix(groups, SCALARS, tier, jobs)
 
 
